@@ -129,7 +129,7 @@ Proof.
   destruct (next_usage _ h a (usages s tok)) as [nu|]; [|discriminate].
   rewrite g_exceeded. destruct (u_total nu >? lc_limit lc) eqn:E; [discriminate|].
   intros H; inversion H; subst. exists nu. repeat split; auto.
-  apply Z.gtb_ltb in E. apply Z.ltb_ge in E. lia.
+  rewrite Z.gtb_ltb in E. apply Z.ltb_ge in E. lia.
 Qed.
 
 (** (P) within the limit = not rejected by the limiter: the limiter rejects exactly when the
@@ -142,7 +142,7 @@ Proof.
   unfold limit_step. destruct (limited s snd tok) as [lc|]; [|discriminate].
   destruct (next_usage _ h a (usages s tok)) as [nu|] eqn:E; [|discriminate].
   rewrite g_exceeded. destruct (u_total nu >? lc_limit lc) eqn:E1; [|discriminate].
-  intros _. exists lc, nu. repeat split; auto. apply Z.gtb_lt in E1. lia.
+  intros _. exists lc, nu. repeat split; auto. rewrite Z.gtb_ltb in E1. apply Z.ltb_lt in E1. lia.
 Qed.
 
 (** ** The tax *)
@@ -376,6 +376,28 @@ Proof.
 Qed.
 
 (** ** Windows *)
+Lemma accepted_cons tok s o ops :
+  accepted tok s (o :: ops) =
+  match counted tok (s, o, Datatypes.snd (deliver o s)) with
+  | Some y => y :: accepted tok (step s o) ops
+  | None => accepted tok (step s o) ops
+  end.
+Proof. reflexivity. Qed.
+
+Lemma counted_not_send tok s o r : (forall h snd tk a mal, o <> Send h snd tk a mal) -> counted tok (s, o, r) = None.
+Proof. intros H. destruct o; try reflexivity. exfalso. eapply H. reflexivity. Qed.
+
+Lemma counted_other_tok tok s h snd tk a mal r : tk <> tok -> counted tok (s, Send h snd tk a mal, r) = None.
+Proof.
+  intros H. simpl. destruct r; auto. destruct (tk =? tok) eqn:E; auto. apply Z.eqb_eq in E. contradiction.
+Qed.
+
+Lemma wsums_nonempty L st tot l : wsums L st tot l <> [].
+Proof.
+  revert st tot. induction l as [|[h1 a1] l IHl]; intros st tot; simpl; [discriminate|].
+  destruct (h1 - st >=? L); [discriminate | apply IHl].
+Qed.
+
 Definition no_setlimit (tok : Z) (ops : list op) : Prop := Forall (fun o => is_setlimit tok o = false) ops.
 
 (** Generalised invariant: the stored tally IS the running total of the current window of the
@@ -390,14 +412,16 @@ Proof.
   intros HP. induction ops as [|o ops IH]; intros s u HL HN HU Hle.
   - simpl. split; [constructor; auto|]. exists u. auto.
   - inversion HN as [|? ? Ho HN']; subst.
-    unfold accepted. simpl trace. simpl filter_map. fold (accepted tok (step s o) ops).
+    rewrite accepted_cons.
     assert (HL' : limits (step s o) tok = Some lc) by (rewrite step_limits; auto).
-    simpl run.
-    destruct o as [h snd tk a mal| | | | | |];
-      try (simpl counted; rewrite step_usages_other in * by (intros; discriminate);
-           specialize (IH (step s _) u HL' HN');
-           rewrite step_usages_other in IH by (intros; discriminate); now apply IH).
-    destruct (Z.eq_dec tk tok) as [->|Hne].
+    change (run s (o :: ops)) with (run (step s o) ops).
+    assert (NS : (exists h snd a mal, o = Send h snd tok a mal) \/
+                 (counted tok (s, o, Datatypes.snd (deliver o s)) = None /\ usages (step s o) tok = usages s tok)).
+    { destruct o as [h snd tk a mal| | | | | |];
+        try (right; split; [apply counted_not_send; intros; discriminate | apply step_usages_other; intros; discriminate]).
+      destruct (Z.eq_dec tk tok) as [->|Hne]; [left; eauto|].
+      right. split; [now apply counted_other_tok|]. apply step_usages_other. intros h0 s0 a0 m0 E. inversion E. contradiction. }
+    destruct NS as [(h & snd & a & mal & ->)|[EC EU]].
     + pose proof (send_step_usage tok h snd a mal s) as HS.
       destruct (counted tok (s, Send h snd tok a mal, Datatypes.snd (deliver (Send h snd tok a mal) s))) as [[h' a']|].
       * destruct HS as (-> & -> & Ha & lc' & nu & Hlim & Hnu & Hnle & Hus).
@@ -409,22 +433,14 @@ Proof.
            destruct (IH _ _ HL' HN' Hus Hnle) as [IH1 IH2]. simpl in IH1, IH2.
            split; [constructor; auto|].
            destruct IH2 as (u' & Hu' & Hlast). exists u'. split; auto.
-           rewrite <- Hlast. simpl.
+           rewrite <- Hlast.
            destruct (wsums (block_limit (lc_period lc)) h a (accepted tok (step s (Send h snd tok a mal)) ops)) eqn:EW; auto.
-           exfalso. clear - EW. revert EW. generalize (accepted tok (step s (Send h snd tok a mal)) ops) h a.
-           induction l as [|[h1 a1] l IHl]; intros h0 a0; simpl; [discriminate|].
-           destruct (h1 - h0 >=? _); [discriminate | apply IHl].
+           exfalso. eapply wsums_nonempty; eauto.
         -- destruct (fits (u_total u + a)); [|discriminate].
            inversion Hnu; subst nu; clear Hnu. simpl in Hnle.
            destruct (IH _ _ HL' HN' Hus Hnle) as [IH1 IH2]. simpl in IH1, IH2. split; auto.
       * specialize (IH (step s (Send h snd tok a mal)) u HL' HN'). rewrite HS in IH. now apply IH.
-    + assert (EC : counted tok (s, Send h snd tk a mal, Datatypes.snd (deliver (Send h snd tk a mal) s)) = None).
-      { simpl. destruct (Datatypes.snd (deliver (Send h snd tk a mal) s)); auto.
-        destruct (tk =? tok) eqn:E; auto. apply Z.eqb_eq in E. contradiction. }
-      rewrite EC.
-      assert (EU : usages (step s (Send h snd tk a mal)) tok = usages s tok).
-      { apply step_usages_other. intros h0 s0 a0 m0 E. inversion E. contradiction. }
-      specialize (IH (step s (Send h snd tk a mal)) u HL' HN'). rewrite EU in IH. now apply IH.
+    + rewrite EC. specialize (IH (step s o) u HL' HN'). rewrite EU in IH. now apply IH.
 Qed.
 
 (** (P) window_total_le_limit: fixed limit configuration for [tok] (governance may change
@@ -436,11 +452,15 @@ Proof.
   intros HL HP. revert s HL. induction ops as [|o ops IH]; intros s HL HU HN.
   - constructor.
   - inversion HN as [|? ? Ho HN']; subst.
-    unfold accepted. simpl trace. simpl filter_map. fold (accepted tok (step s o) ops).
+    rewrite accepted_cons.
     assert (HL' : limits (step s o) tok = Some lc) by (rewrite step_limits; auto).
-    destruct o as [h snd tk a mal| | | | | |];
-      try (simpl counted; apply IH; auto; rewrite step_usages_other by (intros; discriminate); assumption).
-    destruct (Z.eq_dec tk tok) as [->|Hne].
+    assert (NS : (exists h snd a mal, o = Send h snd tok a mal) \/
+                 (counted tok (s, o, Datatypes.snd (deliver o s)) = None /\ usages (step s o) tok = usages s tok)).
+    { destruct o as [h snd tk a mal| | | | | |];
+        try (right; split; [apply counted_not_send; intros; discriminate | apply step_usages_other; intros; discriminate]).
+      destruct (Z.eq_dec tk tok) as [->|Hne]; [left; eauto|].
+      right. split; [now apply counted_other_tok|]. apply step_usages_other. intros h0 s0 a0 m0 E. inversion E. contradiction. }
+    destruct NS as [(h & snd & a & mal & ->)|[EC EU]].
     + pose proof (send_step_usage tok h snd a mal s) as HS.
       destruct (counted tok (s, Send h snd tok a mal, Datatypes.snd (deliver (Send h snd tok a mal) s))) as [[h' a']|].
       * destruct HS as (-> & -> & Ha & lc' & nu & Hlim & Hnu & Hnle & Hus).
@@ -449,11 +469,7 @@ Proof.
         simpl in Hnle. simpl window_sums.
         apply (proj1 (windows_from_usage tok lc HP ops _ _ HL' HN' Hus Hnle)).
       * apply IH; auto. now rewrite HS.
-    + assert (EC : counted tok (s, Send h snd tk a mal, Datatypes.snd (deliver (Send h snd tk a mal) s)) = None).
-      { simpl. destruct (Datatypes.snd (deliver (Send h snd tk a mal) s)); auto.
-        destruct (tk =? tok) eqn:E; auto. apply Z.eqb_eq in E. contradiction. }
-      rewrite EC. apply IH; auto.
-      rewrite step_usages_other; auto. intros h0 s0 a0 m0 E. inversion E. contradiction.
+    + rewrite EC. apply IH; auto. now rewrite EU.
 Qed.
 
 (** ** Unrestricted senders and tokens *)
@@ -478,10 +494,11 @@ Proof.
     destruct (negb (fits (a + tax))); [intros ? ? H; inversion H; split; [discriminate|auto]|].
     destruct (_ <=? 0); [intros ? ? H; inversion H; split; [discriminate|auto]|].
     destruct (_ <? _); intros ? ? H; inversion H; split; try discriminate; auto. }
-  unfold step, deliver. simpl raw. destruct (send_raw h snd tok a false s) as [s1 r] eqn:ER.
-  destruct (HR _ _ ER) as [Hr Hus].
+  unfold step, deliver. change (raw (Send h snd tok a false) s) with (send_raw h snd tok a false s).
+  destruct (send_raw h snd tok a false s) as [s1 r] eqn:ER.
+  destruct (HR s1 r eq_refl) as [Hr Hus].
   repeat split.
-  - destruct r; simpl; auto; discriminate.
+  - destruct r; simpl; try discriminate; try exact Hr.
   - destruct r; simpl; auto.
   - intros tax Hm Ha HT HF [Hpos Hbal].
     unfold send_raw in ER. rewrite HL, Hm, HT, HF, g_lock in ER. simpl negb in ER. cbv iota in ER.
@@ -490,6 +507,42 @@ Proof.
     destruct (bal s snd tok <? a + tax) eqn:E3; [apply Z.ltb_lt in E3; lia|].
     inversion ER; subst. reflexivity.
 Qed.
+
+(** ** Well-formed tax configuration is an invariant of governance *)
+Definition op_wf (o : op) : Prop :=
+  match o with SetTax _ true _ den _ => 0 < den | _ => True end.
+
+Lemma step_tax_wf o s : tax_wf s -> op_wf o -> tax_wf (step s o).
+Proof.
+  intros WF HO. unfold step, deliver. destruct (raw o s) as [s1 r] eqn:ER.
+  destruct r; simpl; auto.
+  destruct o; simpl in ER.
+  - apply send_ok_inv in ER as (_ & _ & _ & s2 & tax & HL & _ & _ & _ & ->).
+    apply limit_step_frame in HL as (_ & _ & _ & _ & _ & _ & _ & _ & Htx & _).
+    unfold tax_wf, lock. simpl. now rewrite Htx.
+  - unfold cancel_raw in ER. destruct (id <? 1); [discriminate|].
+    destruct (find_tx id (pool s)); [|discriminate].
+    destruct (negb _); [discriminate|]. destruct (_ <? _); [discriminate|]. now inversion ER.
+  - unfold batch_raw in ER. destruct (negb _); [discriminate|].
+    destruct (filter _ _); inversion ER; subst; auto.
+  - unfold execute_raw in ER. destruct (find_batch _ _ _); [|discriminate].
+    destruct (_ <? _); [discriminate|]. now inversion ER.
+  - unfold unbatch_raw in ER. destruct (find_batch _ _ _); [|discriminate]. now inversion ER.
+  - unfold settax_raw in ER. destruct ok; simpl in ER; [|discriminate].
+    destruct (0 <=? num) eqn:EN; [|discriminate]. apply Z.leb_le in EN.
+    inversion ER; subst. unfold tax_wf, set_tax. simpl. intros tk tc. unfold upd.
+    destruct (tk =? tok); [intros H; inversion H; subst; simpl; simpl in HO; lia | apply WF].
+  - unfold setlimit_raw in ER. now inversion ER.
+Qed.
+
+Lemma tax_wf_run ops s : tax_wf s -> Forall op_wf ops -> tax_wf (run s ops).
+Proof.
+  revert s. induction ops as [|o ops IH]; intros s WF HF; [exact WF|].
+  inversion HF; subst. simpl. apply IH; auto. now apply step_tax_wf.
+Qed.
+
+Lemma tax_wf_init bals mp : tax_wf (init bals mp).
+Proof. unfold tax_wf, init. simpl. discriminate. Qed.
 
 (** ** Non-vacuity: a concrete history exercising every clause *)
 Definition ex_init : state := init [(0, 0, 1000); (1, 0, 1000); (2, 0, 1000)] [0].
